@@ -216,3 +216,102 @@ func runC16_6(c *core.Ctx) {
 		}
 	})
 }
+
+func init() {
+	register(&core.Rule{ID: "C16.7", Prop: "C16", MinSites: 1,
+		Desc: "the unix endpoint is the cleaned path: what parseProtoAddr returns as endpoint in the unix case is path.Join/path.Clean (or their filepath twins) over both u.Host and u.Path – plain concatenation would hand `/tmp//a.sock` or `./a.sock` on as written",
+		Run: runC16_7})
+}
+
+func runC16_7(c *core.Ctx) {
+	f := getFn(c, "", "parseProtoAddr")
+	if f == nil {
+		return
+	}
+	var unixClause *ast.CaseClause
+	ast.Inspect(f.Decl.Body, func(n ast.Node) bool {
+		cc, ok := n.(*ast.CaseClause)
+		if !ok {
+			return true
+		}
+		for _, e := range cc.List {
+			if tv, ok := f.Info.Types[e]; ok && tv.Value != nil && tv.Value.Kind() == constant.String && constant.StringVal(tv.Value) == "unix" {
+				// only the clause of the scheme switch (its sibling clauses are string literals as well)
+				unixClause = cc
+			}
+		}
+		return true
+	})
+	if unixClause == nil {
+		c.Undecided(f.Name, "unix case", f.Decl.Pos(), "no `case \"unix\"` clause found in parseProtoAddr")
+		return
+	}
+	mentionsField := func(e ast.Node, name string) bool {
+		found := false
+		ast.Inspect(e, func(n ast.Node) bool {
+			if sel, ok := n.(*ast.SelectorExpr); ok && sel.Sel.Name == name {
+				if t := f.Info.TypeOf(sel.X); t != nil && strings.HasSuffix(t.String(), "net/url.URL") {
+					found = true
+				}
+			}
+			return true
+		})
+		return found
+	}
+	var cleaned func(e ast.Expr, depth int) bool
+	cleaned = func(e ast.Expr, depth int) bool {
+		e = ast.Unparen(e)
+		switch x := e.(type) {
+		case *ast.CallExpr:
+			for _, pk := range []string{"path", "path/filepath"} {
+				if flow.IsPkgFunc(f.Info, x, pk, "Join") || flow.IsPkgFunc(f.Info, x, pk, "Clean") {
+					return mentionsField(x, "Host") && mentionsField(x, "Path")
+				}
+			}
+		case *ast.Ident:
+			if o, ok := f.Info.Uses[x].(*types.Var); ok && depth < 3 {
+				if d := defOf(f.Info, f.Decl.Body, o); d != nil {
+					return cleaned(d, depth+1)
+				}
+				// several assignments: each one is a cleaned path or the empty string
+				n, good := 0, 0
+				ast.Inspect(f.Decl.Body, func(m ast.Node) bool {
+					as, ok := m.(*ast.AssignStmt)
+					if !ok || len(as.Lhs) != len(as.Rhs) {
+						return true
+					}
+					for i, l := range as.Lhs {
+						if flow.ObjOf(f.Info, l) != types.Object(o) {
+							continue
+						}
+						n++
+						if tv, ok := f.Info.Types[as.Rhs[i]]; ok && tv.Value != nil && tv.Value.Kind() == constant.String && constant.StringVal(tv.Value) == "" {
+							good++
+						} else if cleaned(as.Rhs[i], depth+1) {
+							good++
+						}
+					}
+					return true
+				})
+				return n > 0 && n == good
+			}
+		}
+		return false
+	}
+	k := 0
+	for _, st := range unixClause.Body {
+		ast.Inspect(st, func(n ast.Node) bool {
+			r, ok := n.(*ast.ReturnStmt)
+			if !ok || len(r.Results) != 3 || !flow.IsNil(f.Info, r.Results[2]) {
+				return true
+			}
+			k++
+			c.Check(cleaned(r.Results[1], 0), f.Name, "unix endpoint #"+itoa(k)+" cleaned", r.Pos(), "path.Join/Clean over u.Host and u.Path",
+				"the endpoint returned for a unix address ("+exprStr(r.Results[1])+") is not the result of path.Join/path.Clean over u.Host and u.Path: `unix:///tmp//a.sock`, `/./`, `/../` or a trailing slash come back as written instead of the cleaned path")
+			return true
+		})
+	}
+	if k == 0 {
+		c.Undecided(f.Name, "unix endpoint", unixClause.Pos(), "the unix case has no successful return")
+	}
+}
